@@ -1,5 +1,137 @@
-"""Protobuf <-> AST expression conversions (C06.HOM.proto). Built in a later step."""
+"""Protobuf <-> AST expression conversions (C06.HOM.proto).
+
+encode = <models::Expr as From<&ast::Expr>>::from, decode = <ast::Expr as TryFrom<models::Expr>>::try_from.
+For every AST variant V the encode arm builds one message kind PV whose fields are
+bound to fields of V; the decode arm of PV calls an AST constructor whose builder
+(map derived by constant propagation) builds V' from arguments that derive from
+message fields. The rule composes the two maps: V' = V, and every field g of V is
+rebuilt from a message field that was filled from V.g and from nothing else (no
+child dropped, duplicated or swapped on the way through the wire format).
+"""
+from lib import hom, shape
+from lib.rulelib import get_fn
+
+P = "cedar_policy::proto::ast::<impl std::convert::"
+M = "cedar_policy::proto::models::cedar_policy_core::"
+ENC = P + "From<&cedar_policy_core::ast::Expr> for " + M + "Expr>::from"
+DEC = P + "TryFrom<" + M + "Expr> for cedar_policy_core::ast::Expr>::try_from"
+AST_KIND = "cedar_policy_core::ast::expr::ExprKind"
+AST_BUILDER = "cedar_policy_core::ast::expr::ExprBuilder<T>"
+# encode panics on these by design (documented: the wire format has no unknowns / error nodes)
+NOT_ENCODED = {"Unknown": "the protobuf format has no unknowns (documented unimplemented!)",
+               "Error": "error nodes never reach the protobuf encoder (documented unimplemented!)"}
+
+
+def ctor(c, t):
+    for p in ("cedar_policy_core::ast::Expr::<T>::", "cedar_policy_core::ast::Expr::", "cedar_policy_core::ast::expr::Expr::<T>::", "cedar_policy_core::ast::expr::Expr::"):
+        if c.startswith(p) and "::" not in c[len(p):]:
+            return "S:" + c[len(p):]
+    return None
+
+
+def msg_seed(p):
+    """a read of `msg.field` of a models::expr::<Msg> struct -> 'Msg#field'"""
+    out = []
+    for e in p[1:]:
+        if isinstance(e, list) and e[0] == "f" and e[3].startswith(M + "expr::") and not e[3].endswith("::ExprKind") and e[2]:
+            out.append("%s#%s" % (e[3].split("::")[-1], e[2]))
+    return out
 
 
 def check(chk, facts):
-    return
+    rule = "C06.HOM.proto"
+    fe = get_fn(chk, facts, rule, ENC)
+    fd = get_fn(chk, facts, rule, DEC)
+    if fe is None or fd is None:
+        return
+    bm = hom.builder_map(facts, AST_BUILDER, ("ast::expr::ExprKind",))
+    msgs = tuple(a for a in facts.adts if a.startswith(M + "expr::") and a.count("::") == (M + "expr::X").count("::"))
+    enc = hom.arm_events(facts, fe, "ast::ExprKind", lambda c, t: None, include_aggs=msgs)
+    dec = hom.arm_events(facts, fd, "models::cedar_policy_core::expr::ExprKind", ctor, extra_seed=msg_seed)
+    rk = facts.adts.get(AST_KIND)
+    pk = facts.adts.get(M + "expr::ExprKind")
+    if enc is None or dec is None or rk is None or pk is None:
+        chk.lost(rule, "match on ExprKind in encode / decode")
+        return
+    pv_index = {v["name"]: i for i, v in enumerate(pk["variants"])}
+    n = 0
+    used_pv = {}
+    for vi, arm in sorted(enc["arms"].items()):
+        vn = rk["variants"][vi]["name"]
+        afields = [x[0] for x in rk["variants"][vi]["fields"]]
+        kinds = [e for e in arm["events"] if e["ctor"].startswith("ExprKind::")]
+        if vn in NOT_ENCODED:
+            n += 1
+            chk.ob(rule, "encode:%s" % vn, not kinds, "AST %s is not encoded: %s" % (vn, NOT_ENCODED[vn]), where=fe.where(), fn=fe.name, key="%s:enc:%s" % (rule, vn))
+            continue
+        if len(kinds) != 1:
+            n += 1
+            chk.ob(rule, "encode:%s" % vn, False, "the encode arm of %s builds %d message kinds (expected exactly one)" % (vn, len(kinds)), where=fe.where(), fn=fe.name, key="%s:enc:%s" % (rule, vn))
+            continue
+        pv = kinds[0]["ctor"].split("::")[1]
+        structs = [e for e in arm["events"] if not e["ctor"].startswith("ExprKind::")]
+        # message field -> AST labels
+        if structs:
+            if len(structs) != 1:
+                n += 1
+                chk.ob(rule, "encode:%s" % vn, False, "the encode arm of %s builds %d message structs" % (vn, len(structs)), where=fe.where(), fn=fe.name, key="%s:enc:%s" % (rule, vn))
+                continue
+            st = structs[0]
+            mname = st["ctor"].split("::")[0]
+            enc_map = {"%s#%s" % (mname, fld): {x for x in labs if x.startswith(vn + ".")} for fld, labs in zip(st["fields"], st["args"])}
+        else:
+            enc_map = {"%s.0" % pv: {x for x in kinds[0]["args"][0] if x.startswith(vn + ".")}}
+        prev = used_pv.setdefault(pv, vn)
+        problems = []
+        if prev != vn:
+            problems.append("message kind %s is also used for %s" % (pv, prev))
+        # every AST field is written somewhere
+        for g in afields:
+            if not any(("%s.%s" % (vn, g)) in labs for labs in enc_map.values()):
+                problems.append("field %s is not written to the message" % g)
+        darm = dec["arms"].get(pv_index.get(pv))
+        back = None
+        dec_desc = None
+        if darm is None:
+            problems.append("decode has no arm for message kind %s" % pv)
+        else:
+            evs = [e for e in darm["events"] if e["ctor"][2:] in bm]
+            if len(evs) != 1:
+                problems.append("the decode arm of %s calls %d AST constructors" % (pv, len(evs)))
+            else:
+                e = evs[0]
+                m = e["ctor"][2:]
+                b = bm[m]
+                dec_desc = m
+                if "undecided" in b:
+                    # ast record(): fallible builder with a loop; the constructor name decides the variant, its only argument is the child list
+                    back = {"Record": "Record"}.get(vn) if m == "record" else None
+                    fmap = {"0": [2]} if m == "record" else {}
+                    if back is None:
+                        problems.append("decode rebuilds with %s whose builder is not decidable" % m)
+                else:
+                    back = b["variant"]
+                    fmap = b["fields"]
+                if back is not None and back != vn:
+                    problems.append("decode(%s) builds %s" % (pv, back))
+                elif back is not None:
+                    for g in afields:
+                        ps = fmap.get(g, [])
+                        want = "%s.%s" % (vn, g)
+                        srcs = set()
+                        for p_ in ps:
+                            if 0 <= p_ - 2 < len(e["args"]):
+                                srcs |= {x for x in e["args"][p_ - 2] if ("#" in x if structs else x == "%s.0" % pv)}
+                        if not srcs:
+                            problems.append("decode does not rebuild field %s from the message" % g)
+                            continue
+                        exact = [pf for pf in srcs if enc_map.get(pf) == {want}]
+                        foreign = [pf for pf in srcs if want not in enc_map.get(pf, set())]
+                        if not exact or foreign:
+                            problems.append("field %s is decoded from %s which encode filled from %s" % (g, sorted(srcs), {pf: sorted(enc_map.get(pf, ())) for pf in sorted(srcs)}))
+        n += 1
+        chk.ob(rule, "%s<->%s" % (vn, pv), not problems,
+               "AST %s is encoded as message %s and decoded with Expr::%s%s" % (vn, pv, dec_desc, (": " + "; ".join(problems)) if problems else " — same variant, every field back in place"),
+               where=fe.where(kinds[0]["line"]), fn=fe.name, key="%s:%s:%s" % (rule, vn, ";".join(problems)),
+               sample={"ast": vn, "message": pv, "encode": {k: sorted(v) for k, v in enc_map.items()}, "decode_ctor": dec_desc})
+    chk.floor(rule, "AST variants through the wire format", n, 17)
